@@ -1019,6 +1019,58 @@ func TestVerifE7Views(t *testing.T) {
 			}
 		}
 	}
+	// nodes with DIFFERENT channel sets whose names interleave (node A: [metrics], nodes B, C: [archive, metrics], …):
+	// the merged channel list of /api/topics/:t must have every channel once, with the sums over the nodes
+	chanSets := [][][]string{
+		{{"metrics"}, {"archive", "metrics"}, {"archive", "metrics"}},
+		{{"zeta"}, {"alpha", "zeta"}, {"alpha", "mid", "zeta"}},
+		{{"m", "z"}, {"a", "z"}, {"a", "m"}},
+		{{"b"}, {"a"}, {"c", "a", "b"}},
+		{{"q", "p", "o"}, {"o"}, {"p", "q", "n"}},
+		{{"x"}, {}, {"w", "x", "y"}, {"v", "y"}},
+		{{"k2", "k10"}, {"k1", "k10", "k2"}, {"k10"}},
+	}
+	for round := 0; round < 1+n/300; round++ {
+		for _, sets := range chanSets {
+			for mode := 0; mode < 2; mode++ {
+				var w vfE7VWorld
+				for i, set := range sets {
+					nd := vfE7Nsqd{Sym: fmt.Sprintf("N%d", i), Filters: rng.Intn(3) != 0, Hostname: vfE7HostPool[rng.Intn(len(vfE7HostPool))],
+						TCPPort: 4150 + i, Version: "1.3.0"}
+					tp := vfE7GenTopic(rng, "t1")
+					tp.Channels = nil
+					for _, c := range set {
+						tp.Channels = append(tp.Channels, vfE7GenChan(rng, c))
+					}
+					nd.Topics = []vfE7Topic{tp}
+					if rng.Intn(2) == 0 {
+						nd.Topics = append(nd.Topics, vfE7GenTopic(rng, "t2"))
+					}
+					w.Nsqds = append(w.Nsqds, nd)
+				}
+				if mode == 0 {
+					l := vfE7Lookupd{Sym: "L0", Topics: []string{"t1"}}
+					for _, nd := range w.Nsqds {
+						p := vfE7Producer{Hostname: nd.Hostname, Sym: nd.Sym, TCPPort: nd.TCPPort, Version: nd.Version, Remote: "10.0.0.1:1",
+							Topics: []string{"t1"}, Tombstones: []bool{false}}
+						l.Nodes = append(l.Nodes, p)
+						l.Lookup = append(l.Lookup, p)
+					}
+					w.Lookupds = []vfE7Lookupd{l}
+				} else {
+					for _, nd := range w.Nsqds {
+						w.NsqdAddrs = append(w.NsqdAddrs, nd.Sym)
+					}
+				}
+				e.run(w, vfE7VReq{kind: "topic", a: "t1"})
+				e.run(w, vfE7VReq{kind: "counter"})
+				for _, c := range sets[len(sets)-1] {
+					e.run(w, vfE7VReq{kind: "channel", a: "t1", b: c})
+				}
+				e.hist["interleaved"]++
+			}
+		}
+	}
 	fmt.Printf("E7-VIEWS cases=%d hist=%v\n", e.out.n, e.hist)
 }
 
